@@ -25,6 +25,7 @@
 #include "ppl_include_files.hh"
 #include "common.hh"
 #include <climits>
+#include <csetjmp>
 #include <type_traits>
 
 using namespace Parma_Polyhedra_Library;
@@ -47,11 +48,12 @@ static XV xinf(int s) { XV x; x.k = s < 0 ? -1 : 1; return x; }
 static XV xnan() { XV x; x.k = 2; return x; }
 static int xsgn(const XV& a) { return a.k == 0 ? (a.sq ? 1 : sgn(a.v)) : a.k; }
 // compare two non-NaN extended values
+static int sg3(int c) { return c < 0 ? -1 : c > 0 ? 1 : 0; }
 static int xcmp(const XV& a, const XV& b) {
   if (a.k != 0 || b.k != 0) { int x = a.k, y = b.k; return x < y ? -1 : x > y ? 1 : 0; }
-  if (!a.sq && !b.sq) return cmp(a.v, b.v);
-  if (a.sq && b.sq) return cmp(a.v, b.v);
-  if (a.sq) { if (sgn(b.v) <= 0) return 1; Q s = b.v * b.v; return cmp(a.v, s); }
+  if (!a.sq && !b.sq) return sg3(cmp(a.v, b.v));
+  if (a.sq && b.sq) return sg3(cmp(a.v, b.v));
+  if (a.sq) { if (sgn(b.v) <= 0) return 1; Q s = b.v * b.v; return sg3(cmp(a.v, s)); }
   return -xcmp(b, a);
 }
 static std::string qstr(const Q& q) {
@@ -455,7 +457,9 @@ static const char* judge(const Dest& d, Result r, Rounding_Dir dir, const XV& E,
 //   isqrt        signed integer sqrt with operand >= 2^(bits-2)
 //   umod-ext     signed integer umod_2exp whose result exceeds the finite maximum of the policy
 //   lcm-min      integer lcm with an operand whose absolute value is not representable
-//   sqrt-mpq     mpq sqrt with operand <= 1
+//   sqrt-mpq     mpq sqrt with operand <= 1, or with ROUND_IGNORE / ROUND_NOT_NEEDED
+//   mpz-ldouble-neg  mpz <- long double in (-1, 0) (and mixed comparisons of the two): goes through float_mpq_to_string
+//   cmp-mp-float cmp of a native mpz/mpq with a native float NaN / infinity (SIGFPE inside GMP)
 //   int-float-edge  integer <- float conversion (and mixed comparisons) with the float just outside the integer range
 //   cmp-swap     greater_than / greater_or_equal between operands whose policies differ in has_nan / has_infinity
 static bool known(const char* cls) {
@@ -604,9 +608,9 @@ static bool run_op(vf::Ctx& c, int op, const typename NumOf<T, P>::type& x, cons
     if (sgnd && op == UMOD_2EXP && E.k == 0 && E.v > d.hi && known("umod-ext")) return false;
     if (op == LCM && ((xv.k == 0 && -xv.v > d.hi) || (yv.k == 0 && -yv.v > d.hi)) && known("lcm-min")) return false;
   }
-  if constexpr (TT<T>::cat == 3) { if (op == SQRT && xv.k == 0 && xv.v <= 1 && known("sqrt-mpq")) return false; }
   if (diri < 0) { diri = (int) c.t.range(0, ND - 1); if (diri == 5 && !(repr && nn_allowed(op, d.cat))) diri = (int) c.t.range(0, 4); }
   else if (diri == 5 && !(repr && nn_allowed(op, d.cat))) return false;
+  if constexpr (TT<T>::cat == 3) { if (op == SQRT && xv.k == 0 && (xv.v <= 1 || diri == 2 || diri == 5) && known("sqrt-mpq")) return false; }
   const Rounding_Dir dir = DIRS(diri);
   N to = t0;
   if (!quiet) {
@@ -650,6 +654,12 @@ static bool run_op(vf::Ctx& c, int op, const typename NumOf<T, P>::type& x, cons
   }
   return true;
 }
+
+// GMP signals a conversion of NaN / infinity by an integer division by zero (SIGFPE).  The comparison functions are
+// run under a guard that turns the signal into a failing check instead of a process crash.
+static sigjmp_buf g_fpe_jb; static volatile sig_atomic_t g_fpe_armed = 0;
+static void fpe_handler(int sig) { if (g_fpe_armed) { g_fpe_armed = 0; siglongjmp(g_fpe_jb, 1); } vf::crash_handler(sig); }
+static void arm_fpe() { static bool inst = false; if (!inst) { inst = true; std::signal(SIGFPE, fpe_handler); } }
 
 // =====================================================================================
 // case drivers
@@ -707,6 +717,7 @@ template <class T1, class P1, class T2, class P2> static void assign_case(vf::Ct
   // a float destination whose policy does not check NaN results takes NaN sources as a precondition
   if (xv.k == 2 && d.cat == 1 && !d.f_nan_ok) { x = one<T1, P1>(); xv = decode<T1, P1>(x); }
   if (s.cat == 1 && float_edge(d, xv) && known("int-float-edge")) { x = one<T1, P1>(); xv = decode<T1, P1>(x); }
+  if (std::is_same<T1, long double>::value && d.cat == 2 && xv.k == 0 && xv.v < 0 && xv.v > -1 && known("mpz-ldouble-neg")) { x = one<T1, P1>(); xv = decode<T1, P1>(x); }
   const XV E = xv; const bool repr = representable(d, E);
   int diri = (int) c.t.range(0, ND - 1); if (diri == 5 && !repr) diri = (int) c.t.range(0, 4);
   const Rounding_Dir dir = DIRS(diri);
@@ -744,6 +755,8 @@ template <class T1, class P1, class T2, class P2> static void compare_case(vf::C
   const XV xv = decode<T1, P1>(x), yv = decode<T2, P2>(y);
   c.log << "compare " << d1.tname << "/" << d1.pname << " x=" << show(xv) << "  with " << d2.tname << "/" << d2.pname << " y=" << show(yv) << "\n";
   if (known("int-float-edge") && ((d1.cat == 0 && d2.cat == 1 && float_edge(d1, yv)) || (d2.cat == 0 && d1.cat == 1 && float_edge(d2, xv)))) { c.tag("compare skipped (int-float-edge)"); return; }
+  if (known("mpz-ldouble-neg") && ((std::is_same<T1, long double>::value && d2.cat == 2 && xv.k == 0 && xv.v < 0 && xv.v > -1) || (std::is_same<T2, long double>::value && d1.cat == 2 && yv.k == 0 && yv.v < 0 && yv.v > -1))) { c.tag("compare skipped (mpz-ldouble-neg)"); return; }
+  if (known("cmp-mp-float") && ((d1.cat >= 2 && !d1.has_nan && d2.cat == 1 && yv.k != 0) || (d2.cat >= 2 && !d2.has_nan && d1.cat == 1 && xv.k != 0))) { c.tag("compare skipped (cmp-mp-float)"); return; }
   const bool un = xv.k == 2 || yv.k == 2; const int cv = un ? 0 : xcmp(xv, yv);
   // check ids: cmp.<function>.samepol when both operand policies agree on has_nan / has_infinity, cmp.<function>.mixedpol otherwise
   typedef typename Native_Checked_From_Wrapper<N1>::Policy FP1; typedef typename Native_Checked_From_Wrapper<N2>::Policy FP2;
@@ -751,6 +764,12 @@ template <class T1, class P1, class T2, class P2> static void compare_case(vf::C
   const std::string pfx = "cmp.", sfx = mixedpol ? ".mixedpol" : ".samepol";
   auto msg = [&](const char* f, bool got) { return [=]() { return std::string(f) + "(" + d1.tname + "/" + d1.pname + " " + show(xv) + ", " + d2.tname + "/" + d2.pname + " " + show(yv) + ") returned " + (got ? "true" : "false"); }; };
   bool g;
+  arm_fpe();
+  if (sigsetjmp(g_fpe_jb, 1) != 0) {
+    c.check("cmp.sigfpe" + sfx, false, "SIGFPE (division by zero) while comparing " + d1.tname + "/" + d1.pname + " " + show(xv) + " with " + d2.tname + "/" + d2.pname + " " + show(yv));
+    return;
+  }
+  g_fpe_armed = 1;
   g = equal(x, y); c.check(pfx + "equal" + sfx, g == (!un && cv == 0), msg("equal", g));
   g = not_equal(x, y); c.check(pfx + "not_equal" + sfx, g == (un || cv != 0), msg("not_equal", g));
   g = less_than(x, y); c.check(pfx + "less_than" + sfx, g == (!un && cv < 0), msg("less_than", g));
@@ -770,6 +789,7 @@ template <class T1, class P1, class T2, class P2> static void compare_case(vf::C
   if constexpr (std::is_same<T1, T2>::value) {
     if (!un) { int k = cmp(x, y); c.check(pfx + "cmp" + sfx, ((k > 0) - (k < 0)) == cv, [&]() { return "cmp(" + d1.tname + "/" + d1.pname + " " + show(xv) + ", " + d2.tname + "/" + d2.pname + " " + show(yv) + ") = " + std::to_string(k); }); }
   }
+  g_fpe_armed = 0;
   if (xv.k != 2) { int k = sgn(x); c.check(std::string("pred.") + CATN[d1.cat] + ".sgn", k == xsgn(xv), [&]() { return "sgn(" + d1.tname + "/" + d1.pname + " " + show(xv) + ") = " + std::to_string(k); }); }
   if (xv.k == 0) { bool k = is_integer(x); c.check(std::string("pred.") + CATN[d1.cat] + ".is_integer", k == (xv.v.get_den() == 1), [&]() { return "is_integer(" + d1.tname + "/" + d1.pname + " " + show(xv) + ") = " + (k ? "true" : "false"); }); }
   c.tag("compare " + d1.tname + "/" + d1.pname + " ? " + d2.tname); c.tag(un ? "compare unordered" : cv == 0 ? "compare equal" : "compare different");
@@ -794,6 +814,7 @@ template <class T, class P> static void exhaustive8(vf::Ctx& c) {
 }
 
 void vf_case(vf::Ctx& c) {
+  g_fpe_armed = 0;
   const int mode = c.t.weighted({ 60, 22, 16, 2 });
   if (mode == 3) {
     const int ti = (int) c.t.range(0, 1), pi = (int) c.t.range(0, 3);
